@@ -23,3 +23,8 @@ def run(ctx, res):
     bitio.rule_merge(prog, res)
     bitio.rule_r_width(prog, res)
     bitio.rule_r_kind(prog, res)
+    # the reviewed lower bound of the MSM cell-mask width relies on the MSM guards
+    import msm, panics
+    msm.rule_guards(prog, res)
+    inv = panics.Inventory(prog, res, "WIDTH", {"__patterns__": []})
+    panics.check_residue_support(inv, res)
